@@ -334,9 +334,12 @@ class Exec:
                         started_heads.add(b)
                         n = q.clone()
                         n.events = []
-                        n.conds = []
                         n.blocks = []
-                        n.eqs = {}
+                        if not self.fresh_per_entry:
+                            n.conds = []
+                            n.eqs = {}
+                        else:
+                            n.events = [e for e in q.events if e[0] == "class"]
                         for iid in f.blocks[b].insts:
                             I = f.insts[iid]
                             if I.op != "phi":
@@ -487,6 +490,13 @@ class Exec:
                         obj = ("arg", base[1])
                     elif base[0] == "i" and f.insts[base[1]].op == "alloca":
                         obj = ("alloca", base[1])
+                    elif base[0] == "i" and f.insts[base[1]].op == "phi" and (f.insts[base[1]].get("ty") or "").endswith("*"):
+                        obj = ("hdp", base[1])      # cursor of an enclosing loop
+                    elif base[0] == "g":
+                        obj = ("glob", base[1])
+                    elif base[0] == "ce" and base[1] in ("bitcast", "getelementptr") and base[2] and base[2][0][0] == "g":
+                        obj = ("glob", base[2][0][1])
+                        off = None
                     else:
                         continue
                     if off is not None and n is not None:
